@@ -43,6 +43,14 @@ contract('gnpy.core.elements.Fiber.to_json', name='gnpy.core.elements.Fiber.to_j
                                              "and p['lumped_losses'][k]['loss'] == self.params.lumped_losses[k]['loss'] for k in range(2))"),
                   ('identity', "result['uid'] == self.uid and result['type'] == 'Fiber' and result['type_variety'] == self.type_variety")],
          use_at_calls=False, modifies=[])
+contract('gnpy.core.elements.Fiber.to_json', name='gnpy.core.elements.Fiber.to_json[one lumped loss]', props=['C17'],
+         params={'self': obj('Fiber', uid=string(), type_variety=string(), metadata=META,
+                             params=extend(FIB_P, lumped_losses=lst(dct(position=real(), loss=real()))))},
+         let={'p': "result['params']"},
+         ensures=[('the_single_lumped_loss_is_exported', "'lumped_losses' in p and len(p['lumped_losses']) == 1 and "
+                                                         "p['lumped_losses'][0]['position'] == self.params.lumped_losses[0]['position'] and "
+                                                         "p['lumped_losses'][0]['loss'] == self.params.lumped_losses[0]['loss']")],
+         use_at_calls=False, modifies=[])
 contract('gnpy.core.elements.Fiber.to_json', name='gnpy.core.elements.Fiber.to_json[no lumped loss]', props=['C17'],
          params={'self': obj('Fiber', uid=string(), type_variety=string(), params=extend(FIB_P, lumped_losses=lst()), metadata=META)},
          ensures=[('no_empty_list_exported', "'lumped_losses' not in result['params']")], use_at_calls=False, modifies=[])
@@ -163,3 +171,25 @@ contract('gnpy.core.network.estimate_raman_gain', props=['C17', 'C09'], override
          modifies=["equipment['ghost_shared'][*]", 'node.estimated_gain', 'node.ghost_probe_pch'],
          note='callees create_input_spectral_information and RamanSolver.calculate_stimulated_raman_scattering are opaque '
               '(ASSUMED not to write SimParams: they are handed the spectrum and the fibre only)')
+
+# a multi-band amplifier exports, for every band amplifier, the designed settings that the next design run consumes
+_BAND_AMP = lambda: obj('Edfa', uid=string(), params=obj('<ns>', type_variety=string()), effective_gain=real(), delta_p=opt(real()),
+                        operational=obj('<ns>', delta_p=opt(real())), tilt_target=opt(real()), out_voa=opt(real()), in_voa=opt(real()))
+contract('gnpy.core.elements.Multiband_amplifier.to_json', props=['C17'],
+         params={'self': obj('Multiband_amplifier', uid=string(), params=obj('<ns>', type_variety=string()), metadata=META,
+                             amplifiers=dct_k({'LBAND': _BAND_AMP(), 'CBAND': _BAND_AMP()}))},
+         let={'a': "result['amplifiers']", 'src': "[self.amplifiers['LBAND'], self.amplifiers['CBAND']]"},
+         requires=[('designed_gain_not_zero', "self.amplifiers['LBAND'].effective_gain != 0 and self.amplifiers['CBAND'].effective_gain != 0")],
+         ensures=[('one_entry_per_band_amplifier', "len(a) == 2 and all(a[k]['type_variety'] == src[k].params.type_variety for k in range(2))"),
+                  ('gain', "all(a[k]['operational']['gain_target'] == round(src[k].effective_gain, 6) for k in range(2))"),
+                  # the designed power offset, not the operator's input (None when it was left to the design)
+                  ('designed_delta_p', "all((a[k]['operational']['delta_p'] is None) == (src[k].delta_p is None) and "
+                                       "implies(src[k].delta_p is not None, a[k]['operational']['delta_p'] == src[k].delta_p) for k in range(2))"),
+                  ('tilt', "all((a[k]['operational']['tilt_target'] is None) == (src[k].tilt_target is None) and "
+                           "implies(src[k].tilt_target is not None, a[k]['operational']['tilt_target'] == src[k].tilt_target) for k in range(2))"),
+                  ('voas', "all((a[k]['operational']['out_voa'] is None) == (src[k].out_voa is None) and "
+                           "implies(src[k].out_voa is not None, a[k]['operational']['out_voa'] == src[k].out_voa) and "
+                           "(a[k]['operational']['in_voa'] is None) == (src[k].in_voa is None) and "
+                           "implies(src[k].in_voa is not None, a[k]['operational']['in_voa'] == src[k].in_voa) for k in range(2))"),
+                  ('identity', "result['uid'] == self.uid and result['type'] == 'Multiband_amplifier' and result['type_variety'] == self.params.type_variety")],
+         use_at_calls=False, modifies=[])
